@@ -125,7 +125,7 @@ theorem asciiLower_ne_nil {s : Bytes} (h : s ≠ []) : asciiLower s ≠ [] := by
 
 /-- `parseHost` on a plain name: the name in lower case, as a domain -/
 theorem parseHost_plain (idna : Bytes → Option Bytes) {name : Bytes} (h : PlainName name) :
-    parseHost idna name = some (.domain (asciiLower name)) := by
+    parseHost idna name = .ok (.domain (asciiLower name)) := by
   have hprops := fun b hb => hostChar_props b (h.chars b hb)
   obtain ⟨b0, r0, rfl⟩ : ∃ b r, name = b :: r := by
     cases name with
@@ -170,8 +170,9 @@ theorem parseUrl_hostText (idna : Bytes → Option Bytes) (proto : Protocol) {na
     (hp : port < 65536) :
     parseUrl idna proto (asciiBytes "//" ++ name ++ [58] ++ natDec port)
       = match parseHost idna name with
-        | some host => .ok ⟨proto, [], none, host, if port = proto.defaultPort then none else some port, [47], none, none⟩
-        | none => .err .invalidInput := by
+        | .ok host => .ok ⟨proto, [], none, host, if port = proto.defaultPort then none else some port, [47], none, none⟩
+        | .err k => .err k
+        | .crash => .crash := by
   have hd := natDec_spec port
   have hdigit : ∀ b ∈ natDec port, isDigit b = true := fun b hb => List.all_eq_true.mp hd.1 b hb
   -- nothing is filtered out
@@ -220,8 +221,9 @@ theorem parseUrl_hostText (idna : Bytes → Option Bytes) (proto : Protocol) {na
   have hempty : name.isEmpty = false := by rw [hname]; rfl
   simp only [parseUrl, hfilter, hdrop, hauth, hat, h.span, hempty, Bool.false_eq_true, if_false]
   cases parseHost idna name with
-  | none => rfl
-  | some host => simp only [List.append_nil, parsePort_natDec _ port hp, parsePath_nil]
+  | err k => rfl
+  | crash => rfl
+  | ok host => simp only [List.append_nil, parsePort_natDec _ port hp, parsePath_nil]
 
 /-- what `Url::parse` makes of `//<plain host>:<port>`: the host in lower case as a domain -/
 theorem parseUrl_plain (idna : Bytes → Option Bytes) (proto : Protocol) {name : Bytes} (h : PlainName name) (port : Nat)
@@ -271,7 +273,7 @@ theorem showIpv4_hostChar (a b c d : UInt8) : ∀ x ∈ showIpv4 a b c d, hostCh
 
 /-- the URL parser reads the dotted quad `Display for Ipv4Addr` prints back as the same address -/
 theorem parseIpv4_showIpv4 (a b c d : UInt8) :
-    parseIpv4 (showIpv4 a b c d) = some (a.toNat * 2 ^ 24 + b.toNat * 2 ^ 16 + c.toNat * 2 ^ 8 + d.toNat) := by
+    parseIpv4 (showIpv4 a b c d) = .ok (a.toNat * 2 ^ 24 + b.toNat * 2 ^ 16 + c.toNat * 2 ^ 8 + d.toNat) := by
   have ha := a.toNat_lt
   have hb := b.toNat_lt
   have hc := c.toNat_lt
@@ -286,6 +288,10 @@ theorem parseIpv4_showIpv4 (a b c d : UInt8) :
     simp [List.mapM_cons, parseIpv4Number_natDec _ ha, parseIpv4Number_natDec _ hb, parseIpv4Number_natDec _ hc, parseIpv4Number_natDec _ hd]
   rw [hm]
   simp [List.range, List.range.loop]
+  have h1 : ¬ 256 ≤ d.toNat := by omega
+  have h2 : ¬ (255 < a.toNat ∨ 255 < b.toNat ∨ 255 < c.toNat) := by omega
+  simp only [h1, h2, if_false]
+  congr 1
   omega
 
 theorem natDec_head_digit (n : Nat) : ∃ b r, natDec n = b :: r ∧ isDigit b = true := by
@@ -332,7 +338,7 @@ theorem asciiLower_digits_dots : ∀ {s : Bytes}, (∀ x ∈ s, isDigit x = true
 
 /-- `Host::parse` of the text `Display for Ipv4Addr` prints: that address -/
 theorem parseHost_showIpv4 (idna : Bytes → Option Bytes) (a b c d : UInt8) :
-    parseHost idna (showIpv4 a b c d) = some (.ipv4 (a.toNat * 2 ^ 24 + b.toNat * 2 ^ 16 + c.toNat * 2 ^ 8 + d.toNat)) := by
+    parseHost idna (showIpv4 a b c d) = .ok (.ipv4 (a.toNat * 2 ^ 24 + b.toNat * 2 ^ 16 + c.toNat * 2 ^ 8 + d.toNat)) := by
   have hchars := showIpv4_chars a b c d
   have hprops := fun x hx => hostChar_props x (showIpv4_hostChar a b c d x hx)
   obtain ⟨b0, r0, hn, hb0⟩ := natDec_head_digit a.toNat
@@ -367,7 +373,7 @@ theorem parseHost_showIpv4 (idna : Bytes → Option Bytes) (a b c d : UInt8) :
     simp only [List.cons.injEq] at heq
     exact absurd heq.1 h91
   · simp only [hdec, domainToAscii, hplain, hden, if_true, Bool.false_eq_true, if_false, hlow, hne, hnum, parseIpv4_showIpv4,
-      Option.map_some]
+      Res.bind]
 
 theorem showIpv4_hostText (a b c d : UInt8) : HostText (showIpv4 a b c d) where
   nonempty := by
@@ -514,14 +520,125 @@ theorem setPath_plain_relative (u : Url) {s : Bytes} {segs : List Bytes} (hne : 
 
 /-! ### requests -/
 
+theorem mapM_option_length {α β : Type} (f : α → Option β) : ∀ (l : List α) (r : List β), l.mapM f = some r → r.length = l.length
+  | [], r, h => by simp at h; subst h; rfl
+  | a :: l, r, h => by
+    simp only [List.mapM_cons] at h
+    cases hf : f a with
+    | none => rw [hf] at h; simp at h
+    | some y =>
+      cases hl : l.mapM f with
+      | none => rw [hf, hl] at h; simp at h
+      | some ys =>
+        rw [hf, hl] at h
+        simp at h
+        subst h
+        simp [mapM_option_length f l ys hl]
+
+theorem splitOn_ne_nil' (d : UInt8) : ∀ l : Bytes, splitOn d l ≠ []
+  | [] => by simp [splitOn]
+  | b :: r => by
+    simp only [splitOn]
+    split
+    · simp
+    · split <;> simp
+
+theorem splitOn_cons_shape (d b : UInt8) (r : Bytes) : ∃ x xs, splitOn d (b :: r) = x :: xs ∧ (xs ≠ [] ∨ x ≠ []) := by
+  simp only [splitOn]
+  by_cases hb : (b == d) = true
+  · simp only [hb, if_true]
+    cases hs : splitOn d r with
+    | nil => exact absurd hs (splitOn_ne_nil' d r)
+    | cons y ys => exact ⟨[], y :: ys, rfl, .inl (by simp)⟩
+  · simp only [hb, if_false]
+    cases hs : splitOn d r with
+    | nil => exact ⟨[b], [], rfl, .inr (by simp)⟩
+    | cons p ps => exact ⟨b :: p, ps, rfl, .inr (by simp)⟩
+
+/-- `parse_ipv4addr` cannot hit its `expect` on a non-empty input (the only input `Host::parse` hands it) -/
+theorem parseIpv4_no_crash (d : Bytes) (hd : d ≠ []) :
+    parseIpv4 d ≠ .crash ∧ ∀ k, parseIpv4 d = .err k → k = .invalidInput := by
+  obtain ⟨b, r, rfl⟩ : ∃ b r, d = b :: r := by
+    cases d with
+    | nil => exact absurd rfl hd
+    | cons b r => exact ⟨b, r, rfl⟩
+  obtain ⟨x, xs, hs, hshape⟩ := splitOn_cons_shape 46 b r
+  have hparts : (if (x :: xs).getLast? == some [] then (x :: xs).dropLast else x :: xs) ≠ [] := by
+    split
+    · rename_i hl
+      rcases hshape with hx | hx
+      · cases xs with
+        | nil => exact absurd rfl hx
+        | cons y ys => simp [List.dropLast]
+      · cases xs with
+        | nil => simp at hl; exact absurd hl hx
+        | cons y ys => simp [List.dropLast]
+    · simp
+  unfold parseIpv4
+  simp only [hs]
+  generalize (if (x :: xs).getLast? == some [] then (x :: xs).dropLast else x :: xs) = parts at hparts
+  split
+  · exact ⟨(fun h => nomatch h), (fun k h => by cases h; rfl)⟩
+  · split
+    · exact ⟨(fun h => nomatch h), (fun k h => by cases h; rfl)⟩
+    · rename_i numbers hm
+      have hlen := mapM_option_length _ _ _ hm
+      split
+      · rename_i hrev
+        have : numbers = [] := by simpa using hrev
+        subst this
+        simp at hlen
+        exact absurd hlen.symm (by simpa using hparts)
+      · split
+        · exact ⟨(fun h => nomatch h), (fun k h => by cases h; rfl)⟩
+        · split
+          · exact ⟨(fun h => nomatch h), (fun k h => by cases h; rfl)⟩
+          · exact ⟨(fun h => nomatch h), (fun k h => nomatch h)⟩
+
+theorem parseHost_total (idna : Bytes → Option Bytes) (input : Bytes) :
+    parseHost idna input ≠ .crash ∧ ∀ k, parseHost idna input = .err k → k = .invalidInput := by
+  unfold parseHost
+  split
+  · split
+    · exact ⟨(fun h => nomatch h), (fun k h => by cases h; rfl)⟩
+    · split
+      · exact ⟨(fun h => nomatch h), (fun k h => nomatch h)⟩
+      · exact ⟨(fun h => nomatch h), (fun k h => by cases h; rfl)⟩
+  · split
+    · exact ⟨(fun h => nomatch h), (fun k h => by cases h; rfl)⟩
+    · rename_i domain _
+      split
+      · exact ⟨(fun h => nomatch h), (fun k h => by cases h; rfl)⟩
+      · rename_i hne
+        split
+        · have hd : domain ≠ [] := by
+            intro h; subst h; simp at hne
+          have h4 := parseIpv4_no_crash domain hd
+          cases hp : parseIpv4 domain with
+          | ok n => exact ⟨(fun h => nomatch h), (fun k h => nomatch h)⟩
+          | err k => exact ⟨(fun h => nomatch h), (fun k' h => by cases h; exact h4.2 k hp)⟩
+          | crash => exact absurd hp h4.1
+        · exact ⟨(fun h => nomatch h), (fun k h => nomatch h)⟩
+
 theorem parseUrl_total (idna : Bytes → Option Bytes) (proto : Protocol) (after : Bytes) :
     parseUrl idna proto after ≠ .crash ∧ ∀ k, parseUrl idna proto after = .err k → k = .invalidInput := by
   unfold parseUrl
   simp only []
   repeat' split
   all_goals first
-    | exact ⟨(fun h => nomatch h), (fun k h => by cases h; rfl)⟩
-    | exact ⟨(fun h => nomatch h), (fun k h => nomatch h)⟩
+    | (constructor
+       · intro h; cases h
+       · intro k h; cases h; rfl)
+    | (constructor
+       · intro h; cases h
+       · intro k h; cases h; done)
+    | (constructor
+       · intro h; cases h
+       · intro k' h
+         cases h
+         exact (parseHost_total idna _).2 _ (by assumption))
+    | (exfalso
+       exact (parseHost_total idna _).1 (by assumption))
 
 /-- building a client cannot panic; the only error is `InvalidInput` -/
 theorem new_total (idna : Bytes → Option Bytes) (ua : Bytes) (address : SocketAddr)
